@@ -340,6 +340,20 @@ func init() {
 	}
 }
 
+// Big-endian encoders: the slice must be long enough (the library panics otherwise); the bytes written are not
+// modelled (value-semantics slices: a write through a parameter is not visible to the caller).
+func init() {
+	for _, n := range []int{2, 4, 8} {
+		n := n
+		name := fmt.Sprintf("encoding/binary.bigEndian.PutUint%d", n*8)
+		stdModels[name] = func(vc *VC, s *State, call *ast.CallExpr, args []*Term) []*Term {
+			vc.prog.Assumed[fmt.Sprintf("binary.BigEndian.PutUint%d(b, v) panics when len(b) < %d; the bytes it writes are not modelled", n*8, n)] = true
+			vc.oblige(s, "safety", vc.siteName("call", call), fmt.Sprintf("index out of range in BigEndian.PutUint%d", n*8), call.Pos(), Ge(sliceLen(args[0]), IntLit(int64(n))))
+			return nil
+		}
+	}
+}
+
 // bePack: big-endian value of n bytes of arr starting at off.
 func bePack(arr, off *Term, n int) *Term {
 	var sum *Term
